@@ -213,7 +213,9 @@ def run(ctx):
         if len(paths) > per_cfg and not (thorough and len(flav) == 2):
             paths = rnd.sample(paths, per_cfg)
         for acts, exps in paths:
-            jobs.append({"flav": list(flav), "sched": ["main" if a == 0 else a for a in acts]})
+            # (how many starts the specification expects: the scheduler waits for that many - up
+            #  to 3 s - before it lets the starts settle, however slow the machine is)
+            jobs.append({"flav": list(flav), "sched": ["main" if a == 0 else a for a in acts], "expect_starts": 0 if exps[-1]["mpc"] == "crashed" else len(exps[-1]["started"])})
             meta.append((flav, protocol, acts, exps))
     for f, (name, res) in zip(SAFETY, windows):
         tlc.require_ok(res, name)
@@ -359,7 +361,7 @@ def run_closing(ctx):
             sched = []
             for a, st in zip(acts, exps):
                 sched.append(a if a else ("fail" if st["mpc"] == "closing" else "main"))
-            jobs.append({"close": True, "flav": list(flav), "sched": sched})
+            jobs.append({"close": True, "flav": list(flav), "sched": sched, "expect_starts": len([f for f in exps[-1]["fate"] if f in ("started", "unsupervised")])})
             meta.append((flav, acts, exps))
     tlc.require_ok(left[1], left[0])
     if not left[1].violated:
@@ -486,7 +488,7 @@ def run_stopping(ctx, only=C03_FORMULAS):
         if len(paths) > per_cfg:
             paths = rnd.sample(paths, per_cfg)
         for acts, exps in paths:
-            jobs.append({"stop": True, "flav": list(flav), "sched": ["shut" if a == -1 else "main" if a == 0 else a for a in acts]})
+            jobs.append({"stop": True, "flav": list(flav), "sched": ["shut" if a == -1 else "main" if a == 0 else a for a in acts], "expect_starts": len([f for f in exps[-1]["fate"] if f in ("started", "unsupervised")])})
             meta.append((flav, acts, exps))
     obs = run_jobs(jobs)
     alone = conforming = 0
